@@ -137,7 +137,8 @@ CONFIGS = [[s, ow, fn] for fn in FNAMES for ow in (False, True) for s in SCALES]
 
 LOG_SETS = [['pyfloat'], ['npf64'], ['pyint'], ['npf32'], ['npi64'], ['a0d'], ['vec3'], ['vec2'], ['vec5i'], ['m22'],
             ['m23'], ['m31'], ['pyfloat', 'npf64', 'pyint'], ['pyfloat', 'npf64', 'vec3', 'm22'],
-            ['vec3', 'pyint', 'm23', 'a0d'], ['vec1'], ['m11'], ['npf64', 'vec1']]
+            ['vec3', 'pyint', 'm23', 'a0d'], ['vec1'], ['m11'], ['npf64', 'vec1'], ['vec3r'], ['m23f'],
+            ['pyfloat', 'vec3r', 'm23f', 'vec2'], ['m23x'], ['npf64', 'm23x', 'vec3r']]
 LOG_FMTS = ['.10e', '.3f', '.5g', 'e']
 LOG_FILES = [['\t', 'log.txt'], [';', 'log.txt'], ['\t', 'log.csv'], [';', 'sub/hist.csv']]
 
@@ -502,11 +503,51 @@ def log_value(name, k, seed):
         return arr(6).reshape(2, 3)
     if name == 'm31':
         return arr(3).reshape(3, 1)
+    # other memory layouts of the same kind of data (a reversed view, Fortran order, a layout that changes from call to
+    # call): which column holds which entry is told by the header labels tag[i, j]
+    if name == 'vec3r':
+        return arr(3)[::-1]
+    if name == 'm23f':
+        return np.asfortranarray(arr(6).reshape(2, 3))
+    if name == 'm23x':
+        a = arr(6).reshape(2, 3)
+        return np.asfortranarray(a) if k % 2 == 0 else np.ascontiguousarray(a)
     raise KeyError(name)
 
 
 LOG_KINDS = {'pyfloat': 'f', 'pyint': 'n', 'npf64': 'g', 'npf32': 'g32', 'npi64': 'ni', 'a0d': 'z', 'vec1': 'lam',
-             'vec2': 'w', 'vec3': 'v', 'vec5i': 'idx', 'm11': 'q', 'm22': 'm', 'm23': 'A', 'm31': 'col'}
+             'vec2': 'w', 'vec3': 'v', 'vec5i': 'idx', 'm11': 'q', 'm22': 'm', 'm23': 'A', 'm31': 'col',
+             'vec3r': 'lr', 'm23f': 'Af', 'm23x': 'Ax'}
+
+
+def label_order(header, sigs_shapes, tags):
+    """column -> (signal number, index tuple) as told by header labels of the form tag[i, j]; None if the header cannot be
+    read that way (then the columns are taken in index order)"""
+    import json
+    out = []
+    pos = 1
+    for j, (shape, tag) in enumerate(zip(sigs_shapes, tags)):
+        cnt = int(np.prod(shape)) if len(shape) else 1
+        fields = header[pos:pos + cnt]
+        pos += cnt
+        if not len(shape):
+            out.append((j, ()))
+            continue
+        got = []
+        for f in fields:
+            if not f.startswith(tag + '['):
+                return None
+            try:
+                idx = tuple(json.loads(f[len(tag):]))
+            except ValueError:
+                return None
+            if len(idx) != len(shape) or not all(isinstance(q, int) and 0 <= q < n_ for q, n_ in zip(idx, shape)):
+                return None
+            got.append(idx)
+        if len(set(got)) != cnt:
+            return None
+        out += [(j, idx) for idx in got]
+    return out if pos == len(header) else None
 
 
 def _execute_log(case, root):
@@ -560,6 +601,7 @@ def _log_history(case, fmt, sepfile, stale, hist, d, sink):
                  error=str(e)[-400:])
         return 'raised:ctor', False, 0
     logged = []
+    snaps = []
     prev_text = None
     k = 0
     steps = 0
@@ -575,6 +617,7 @@ def _log_history(case, fmt, sepfile, stale, hist, d, sink):
                 else:
                     sg.state = new
         logged.append([v for sg in sigs for v in rv.flat_values(sg.state)])
+        snaps.append([np.array(sg.state, dtype=float, order='C') for sg in sigs])
         steps += 1
         try:
             mod.response()
@@ -607,8 +650,15 @@ def _log_history(case, fmt, sepfile, stale, hist, d, sink):
         else:
             sink.chk(len(log['header']) == ncols, 'log_header', dict(sigin, what='field_count'), nar,
                      header=log['header'], columns=ncols)
+        # which entry a column holds: as labelled by the header (tag[i, j]); in index order if it has no such labels
+        order = label_order(log['header'], [np.shape(a_) for a_ in snaps[0]], [LOG_KINDS[nm] for nm in names]) \
+            if len(log['header']) == ncols else None
+        if order is not None:
+            logged_now = [[float(sn[j][idx]) if idx else float(sn[j]) for j, idx in order] for sn in snaps]
+        else:
+            logged_now = logged
         # every row written so far
-        for r, (row, vals) in enumerate(zip(log['rows'], logged)):
+        for r, (row, vals) in enumerate(zip(log['rows'], logged_now)):
             if not sink.chk(len(row) == 1 + len(vals), 'log_columns', sigin, nar, row=row, expected_values=len(vals)):
                 continue
             first = float(log['rows'][0][0]) if rv.is_number(log['rows'][0][0]) else None
